@@ -27,8 +27,9 @@ def roundtrip(T, v, defm, chunk):
 def run(ctx):
     ctx.rule = ('random (type, value) from the universe (depth<=3, tag stacks over 3 classes x numbers up to 2^32, boundary '
                 'integers, bit strings of every length mod 8, multi-octet OID arcs, binary reals, every optionality subset) x '
-                '{definite, indefinite} x chunk in {0,1,2,3,7,1000}; non-trivial = constructed or tagged type; distinct by (type, value, mode)')
+                '{definite, indefinite} x chunk in {0,1,2,3,7,1000}; plus systematic leaf boundaries (INTEGER two\'s-complement edges per octet count, REAL mantissa x exponent edges, OID arc digit boundaries, BIT STRING lengths 0..17, length-octet boundaries), plain and tagged; non-trivial = constructed or tagged type; distinct by (type, value, mode)')
     cases = codec.gen_cases(ctx, ctx.n(120, 2500), depth=3)
+    cases += codec.leaf_boundary_cases(ctx, every=3 if ctx.tier == 'quick' else 1)
     exprs, meta = [], []
     search_only = getattr(ctx, 'search_only', False)
     for c in cases:
